@@ -100,6 +100,25 @@ def r1_r2(ctx, R):
     if len(sites) < 2:
         raise AnalysisError(f"line splitter use sites: found {len(sites)} (expected both ingestion paths)")
     kinds = set()
+    # the list of lines becomes the file's own, mutable buffer (single-line edits write into it):
+    # the splitter must hand out a fresh list on every call
+    memo = ("lru_cache", "cache", "cached", "memoize", "memoise", "cached_property")
+    seen_g = set()
+    for f, st, (kind, obj, g) in sites:
+        chain = [g]
+        c0 = next((c for c in calls_in(st) if ctx.r.resolve_call(f, c)[1]), None)
+        if c0 is not None:
+            chain += [ctx.m.funcs[q] for q in ctx.r.resolve_call(f, c0)[1] if q in ctx.m.funcs]
+        for h in chain:
+            if h is None or h.qual in seen_g or h is f:
+                continue
+            seen_g.add(h.qual)
+            decs = [unparse(d) for d in h.node.decorator_list]
+            bad = [d for d in decs if any(m in d.split("(")[0].split(".")[-1] for m in memo)]
+            if bad:
+                R.violation("C02.R1", h.short, "splitter returns a fresh list", loc(h, h.node), f"`{h.name}` is memoised (@{bad[0]}): every document with the same text shares one list of lines, and a single-line edit of one buffer (written in place) changes what the next split of that text returns - the server's copy of a re-opened or re-sent document is the edited one")
+            else:
+                R.ok("C02.R1", h.short, "splitter returns a fresh list", loc(h, h.node), "not memoised")
     for f, st, (kind, obj, g) in sites:
         where = f.short
         if kind == "regex":
